@@ -89,6 +89,9 @@ type ExtendedOTSendResult struct {
 // hash is initialized with some kind of nonce.
 func ExtendedOTSend(ctxHash *hash.Hash, setup *CorreOTSendSetup, batchSize int, msg *ExtendedOTReceiveMessage) (*ExtendedOTSendResult, error) {
 	inflatedBatchSize := batchSize + params.OTParam + params.StatParam
+	if msg == nil || msg.CorreMsg == nil {
+		return nil, fmt.Errorf("ExtendedOTSend: nil message")
+	}
 
 	correResult, err := CorreOTSend(ctxHash, setup, inflatedBatchSize, msg.CorreMsg)
 	if err != nil {
